@@ -176,7 +176,8 @@ def run(model, R):
         R.check(label_seen.get(lab, 0) == 1, 'DRAWING', func, loop, f'one {lab} carrier per concept', 'exactly one', str(label_seen.get(lab, 0)))
     fams = [f for _, f, _ in cover_families]
     if not cover_families:
-        R.bad('DRAWING', func, loop, 'cover edges', 'one edge per covering pair (to each lower neighbour)', 'no cover edges are drawn')
+        from .common import absent
+        absent(model, R, 'DRAWING', func, loop, 'cover edges', 'one edge per covering pair (to each lower neighbour)', 'no cover edges are drawn')
     for call, fam, g in cover_families:
         if fam is None:
             R.unknown('DRAWING', func, call, 'cover edges', 'endpoints not recognised')
